@@ -56,9 +56,6 @@ func (p propT) knownGap() string {
 	if t.Kind == "float" && t.Rules {
 		return "float rules"
 	}
-	if t.Kind == "key" && t.Fmt == "informal" && t.LRules {
-		return "informal key with list rules"
-	}
 	return ""
 }
 
